@@ -114,6 +114,9 @@ func runC20(c *mon.Ctx) {
 	r := c.Rand("tuples")
 	n := c.Scale(200, 8000)
 	users := []string{"@alice:example.org", "@bob:example.org", "@a:b", "@alice:example.org ", "@ALICE:example.org", "@é:x.example", "user_id = @x:y"}
+	// user IDs up to the 255 bytes an ID may have: the token text grows to several hundred characters (tenth seeding
+	// round, C20-U: a decoder that refused texts over 512 characters)
+	users = append(users, "@"+strings.Repeat("l", 140)+":example.org", "@"+strings.Repeat("u", 200)+":long.example", "@"+strings.Repeat("x", 240)+":example.org")
 	servers := []string{"example.org", "a.example:8448", "localhost", "s"}
 	otherEncoding := false
 	for k := 0; k < n; k++ {
